@@ -15,6 +15,8 @@ NAME_SETS = {
     # names that differ only in case (cobalt and carbon monoxide), and names that end in / start with one another
     'case': ['CO', 'Co', 'co', 'H2O', 'h2o', 'OH', 'Oh', 'NO', 'No', 'TS', 'ts'],
     'affix': ['O', 'CO', 'HCO', 'HCOO', 'H', 'OH', 'COOH', 'O2', 'CO2', 'H2', 'OH2'],
+    # a gas species and its adsorbed form carrying the usual phase tags
+    'tagged': ['H2O', 'H2O(S)', 'CO', 'CO(S)', 'H2', 'H2(S)', 'CO*', 'O2', 'O2*', 'TS1', 'TS1(S)'],
 }
 BEP_DESCRIPTORS = ['delta_H', 'rev_delta_H', 'reactants_H', 'products_H']
 QUANT = ['CvoR', 'CpoR', 'UoRT', 'HoRT', 'SoR', 'FoRT', 'GoRT', 'EoRT', 'q']
@@ -47,7 +49,7 @@ class WorldC08(World):
                                                                   ['StatMech', 'Nasa']]),
                 'w_eval': rng.choice([3, 5]), 'w_edit': rng.choice([0, 1, 2]),
                 'rxn_classes': rng.choice([['Reaction'], ['Reaction', 'ChemkinReaction', 'SurfaceReaction']]),
-                'names': rng.choice(['plain', 'plain', 'case', 'affix']), 'n_bep': rng.choice([0, 0, 1, 2]),
+                'names': rng.choice(['plain', 'tagged', 'case', 'affix']), 'n_bep': rng.choice([0, 0, 1, 2]),
                 'w_hist': rng.choice([0, 0, 1, 2])}
 
     def n_steps(self, rng, swarm):
